@@ -137,7 +137,10 @@ VerdictC07(L, m, thr) ==
 (* ---- C09: lone-number policy, declaratively ---------------------------- *)
 IsGlue(tok) == tok = "-" \/ IsWsOnly(tok)
 IsLinkingTok(L, tok) == LET lo == Lower(tok) IN lo \in Linking[L] \/ lo = ConjWord[L]
-Breaker(L, tok) == ~IsGlue(tok) /\ (HasAlpha(tok) \/ TrimWs(tok) = ".") /\ ~IsLinkingTok(L, tok)
+\* a period is never ignored, also when the tokenizer leaves it glued to a digit token ("5." -- the statement speaks of the text,
+\* not of a particular tokenization): the token without its digits and blanks is a lone period
+DropDigitsWs(tok) == MapStr(LAMBDA c : IF c \in CharsOf(DigitChars) \/ IsWs(c) THEN "" ELSE c, tok)
+Breaker(L, tok) == ~IsGlue(tok) /\ (HasAlpha(tok) \/ TrimWs(tok) = "." \/ DropDigitsWs(tok) = ".") /\ ~IsLinkingTok(L, tok)
 \* no breaker among the tokens strictly between two occurrences (0-based [a, b))
 NoBreakerBetween(L, toks, a, b) == \A i \in (a + 1)..b : ~Breaker(L, toks[i])
 SameOcc(x, y) == x.s = y.s /\ x.e = y.e /\ x.t = y.t /\ x.v = y.v /\ x.o = y.o
